@@ -3,6 +3,7 @@ package props
 import (
 	"bytes"
 	"encoding/json"
+	"errors"
 	"fmt"
 	"io"
 	"strings"
@@ -13,6 +14,7 @@ import (
 	"github.com/biogo/biogo/io/featio/gff"
 	"github.com/biogo/biogo/io/seqio/fasta"
 	"github.com/biogo/biogo/io/seqio/fastq"
+	"github.com/biogo/biogo/seq"
 	"github.com/biogo/biogo/seq/linear"
 
 	"verif/harness/simio"
@@ -35,7 +37,47 @@ type C03Plan struct {
 	Invalid int      `json:"invalid,omitempty"` // number of invalid records in a "fastq-records" input
 }
 
-var c03Readers = []string{"fasta", "fastq", "bed3", "bed4", "bed5", "bed6", "bed12", "gff", "gff", "gff-notimeformat"}
+var c03Readers = []string{"fasta", "fastq", "bed3", "bed4", "bed5", "bed6", "bed12", "gff", "gff", "gff-notimeformat", "fasta-picky", "fastq-picky"}
+
+// A reader template may refuse a name or a description (the doc comments of
+// the readers' Read say so); none of the library's own types does. The picky
+// templates refuse empty names and descriptions that mention a digit.
+var errPicky = errors.New("picky template: refused")
+
+func pickyName(n string) bool { return n == "" || strings.ContainsAny(n, ">@;") }
+func pickyDesc(d string) bool { return strings.ContainsAny(d, "0123456789") }
+
+type pickySeq struct{ *linear.Seq }
+
+func (s pickySeq) SetName(n string) error {
+	if pickyName(n) {
+		return errPicky
+	}
+	return s.Seq.SetName(n)
+}
+func (s pickySeq) SetDescription(d string) error {
+	if pickyDesc(d) {
+		return errPicky
+	}
+	return s.Seq.SetDescription(d)
+}
+func (s pickySeq) Clone() seq.Sequence { return pickySeq{s.Seq.Clone().(*linear.Seq)} }
+
+type pickyQSeq struct{ *linear.QSeq }
+
+func (s pickyQSeq) SetName(n string) error {
+	if pickyName(n) {
+		return errPicky
+	}
+	return s.QSeq.SetName(n)
+}
+func (s pickyQSeq) SetDescription(d string) error {
+	if pickyDesc(d) {
+		return errPicky
+	}
+	return s.QSeq.SetDescription(d)
+}
+func (s pickyQSeq) Clone() seq.Sequence { return pickyQSeq{s.QSeq.Clone().(*linear.QSeq)} }
 
 // genericRead adapts all readers to one call shape.
 func openReader(kind string, src io.Reader) (func() (interface{}, error), error) {
@@ -45,6 +87,12 @@ func openReader(kind string, src io.Reader) (func() (interface{}, error), error)
 		return func() (interface{}, error) { s, err := r.Read(); return s, err }, nil
 	case "fastq":
 		r := fastq.NewReader(src, linear.NewQSeq("", nil, alphabet.DNA, alphabet.Sanger))
+		return func() (interface{}, error) { s, err := r.Read(); return s, err }, nil
+	case "fasta-picky":
+		r := fasta.NewReader(src, pickySeq{linear.NewSeq("", nil, alphabet.DNA)})
+		return func() (interface{}, error) { s, err := r.Read(); return s, err }, nil
+	case "fastq-picky":
+		r := fastq.NewReader(src, pickyQSeq{linear.NewQSeq("", nil, alphabet.DNA, alphabet.Sanger)})
 		return func() (interface{}, error) { s, err := r.Read(); return s, err }, nil
 	case "gff", "gff-notimeformat":
 		r := gff.NewReader(src)
@@ -244,7 +292,7 @@ func fmtOf(reader string) string {
 	if strings.HasPrefix(reader, "gff") {
 		return "gff"
 	}
-	return reader
+	return strings.TrimSuffix(reader, "-picky")
 }
 
 // mangleCase flips the case of some letters.
@@ -345,7 +393,7 @@ func validText(r *simrt.RNG, reader string) []byte {
 		case "fasta", "fastq":
 			var pl C01Plan
 			json.Unmarshal(genC01(r).Plan, &pl)
-			if pl.Format != reader {
+			if pl.Format != fmtOf(reader) {
 				continue
 			}
 			for i := range pl.Recs {
@@ -475,8 +523,8 @@ func mutate(r *simrt.RNG, text []byte, reader string) []byte {
 // kinds the property statement names.
 func targeted(r *simrt.RNG, reader string) []byte {
 	bad := numericBoundary[3:5][r.Intn(2)] // "" or "x": non-numeric
-	if fmtOf(reader) == "gff" {
-		reader = "gff"
+	if f := fmtOf(reader); f != "bed" {
+		reader = f
 	}
 	switch reader {
 	case "fastq":
@@ -576,6 +624,22 @@ func genC03Input(r *simrt.RNG) (reader string, input []byte, expect string, vali
 		input = boundaryLines(r, reader)
 		return
 	}
+	if strings.HasSuffix(reader, "-picky") && r.Intn(3) == 0 {
+		// complete records whose header the template refuses in part or whole
+		var buf bytes.Buffer
+		for n := r.Range(1, 4); n > 0; n-- {
+			name := []string{"", "a", "b", ">c", "@d"}[r.Intn(5)]
+			desc := []string{"", "", " d", " d1", "\t7"}[r.Intn(5)]
+			letters := genLetters(r, "dna", r.Range(1, 9))
+			if fmtOf(reader) == "fasta" {
+				fmt.Fprintf(&buf, ">%s%s\n%s\n", name, desc, letters)
+			} else {
+				fmt.Fprintf(&buf, "@%s%s\n%s\n+\n%s\n", name, desc, letters, strings.Repeat("I", len(letters)))
+			}
+		}
+		input = buf.Bytes()
+		return
+	}
 	if fmtOf(reader) == "gff" && r.Intn(5) == 0 {
 		input = gffMetalines(r)
 		return
@@ -588,7 +652,7 @@ func genC03Input(r *simrt.RNG) (reader string, input []byte, expect string, vali
 	case k < 8:
 		input = validText(r, reader)
 	default:
-		if reader == "fasta" {
+		if fmtOf(reader) == "fasta" {
 			// the statement names no FASTA-specific invalid structure
 			input = mutate(r, validText(r, reader), reader)
 			break
@@ -650,7 +714,33 @@ func c03CaseV(reader string, input []byte, expect string, d simio.Delivery, vali
 	return &Case{Prop: "C03", Kind: reader, Plan: marshalPlan(pl)}
 }
 
+// hugeC03: inputs whose size, not shape, is the point: millions of skipped
+// lines before a record, one multi-megabyte line, a million tiny records.
+func hugeC03() []*Case {
+	var out []*Case
+	d := simio.NoFault("block", 11)
+	skip := bytes.Repeat([]byte("\n#\n \n"), 400000) // 1.2 million blank / comment lines
+	line := bytes.Repeat([]byte("ACGT"), 1<<20)      // one 4 MiB line
+	for _, rd := range []string{"fasta", "fastq", "bed3", "bed12", "gff"} {
+		rec := map[string]string{
+			"fasta": ">a\nACGT\n", "fastq": "@a\nACGT\n+\nIIII\n", "bed3": "c\t1\t5\n",
+			"bed12": "c\t1\t5\tn\t0\t+\t1\t5\t0\t1\t4\t0\n", "gff": "s\tx\tf\t1\t5\t.\t+\t.\n",
+		}[rd]
+		out = append(out,
+			c03Case(rd, append(append([]byte(nil), skip...), rec...), "", d),
+			c03Case(rd, append(append([]byte(rec), line...), '\n'), "", d),
+			c03Case(rd, bytes.Repeat([]byte(rec), 200000), "", d))
+	}
+	return out
+}
+
 func exploreC03(t *testing.T, w *Worker, r *simrt.RNG) {
+	if w.unit == 0 {
+		for _, h := range hugeC03() {
+			h := h
+			w.Report(h, w.Guarded(h, func() *Result { return runC03(t, h, RunOpts{}) }))
+		}
+	}
 	reader, input, expect, valid, invalid := genC03Input(r)
 	d := simio.PickDelivery(r)
 	c := c03CaseV(reader, input, expect, d, valid, invalid)
